@@ -598,12 +598,16 @@ func (up *SyncClient) syncNode(parent, id string) error {
 
 	nodeLocal := nodeLocals[0]
 
+	verifEvent("sync.afterLocalFetch", up.config.ID, parent, id)
+
 	nodeUps, upErr := GetNodes(up.ncRemote, parent, id, "", true)
 	if upErr != nil {
 		if upErr != data.ErrDocumentNotFound {
 			return fmt.Errorf("Error getting upstream root node: %v", upErr)
 		}
 	}
+
+	verifEvent("sync.afterRemoteFetch", up.config.ID, parent, id)
 
 	var nodeUp data.NodeEdge
 
@@ -784,6 +788,8 @@ func (up *SyncClient) syncNode(parent, id string) error {
 	// sync child nodes. Deleted children are included on both sides,
 	// otherwise a deletion made on one side while the link was down is
 	// never compared with (and never reaches) the other side.
+	verifEvent("sync.beforeChildren", up.config.ID, parent, nodeLocal.ID)
+
 	children, err := GetNodes(up.ncLocal, nodeLocal.ID, "all", "", true)
 	if err != nil {
 		return fmt.Errorf("Error getting local node children: %v", err)
